@@ -130,9 +130,14 @@ impl Profile {
             }
             "C08" => {
                 p.name = "faults";
-                p.steps = (3, 14);
+                p.steps = (2, 10);
+                p.ops = (1, 8);
                 p.w_readonly = 0;
                 p.w_dropdb = 0;
+                p.w_reopen = 0;
+                p.w_crash = 0;
+                p.p_panic = 0;
+                p.w_bulk = 2;
             }
             "C09" => {
                 p.name = "multimap";
